@@ -207,17 +207,12 @@ func mergeStringAuditInfoMaps(ms ...map[string]*scipipe.AuditInfo) (merged map[s
 
 func sortAuditInfosByStartTime(auditInfosByID map[string]*scipipe.AuditInfo) []*scipipe.AuditInfo {
 	sorted := []*scipipe.AuditInfo{}
-
-	auditInfosByStartTime := map[time.Time]*scipipe.AuditInfo{}
-	startTimes := []time.Time{}
 	for _, ai := range auditInfosByID {
-		auditInfosByStartTime[ai.StartTime] = ai
-		startTimes = append(startTimes, ai.StartTime)
+		sorted = append(sorted, ai)
 	}
-	sort.Slice(startTimes, func(i, j int) bool { return startTimes[i].Before(startTimes[j]) })
-	for _, t := range startTimes {
-		sorted = append(sorted, auditInfosByStartTime[t])
-	}
+	// Sort the audit infos themselves (not a map keyed by start time, which
+	// would collapse tasks that have the same start time into one)
+	sort.SliceStable(sorted, func(i, j int) bool { return sorted[i].StartTime.Before(sorted[j].StartTime) })
 	return sorted
 }
 
